@@ -743,7 +743,7 @@ def _style_sweep(job):
     try:
         for cfg in cfgs:
             want = g.get(cfg)
-            for st in ("kw", "kwr", "dflt") + (("ci", "npf") if "c8" in cfg else ()):
+            for st in ("kw", "kwr", "pkr", "dflt") + (("ci", "npf") if "c8" in cfg else ()):
                 n += 1
                 got = g.get(dict(cfg, style=st))
                 if got != want:
